@@ -64,7 +64,10 @@ Inductive bkind :=
 | BAck (cid : nat)
 | BMsg (m : bmsg)
 | BBurst (ms : list bmsg)     (* messages that arrive back to back *)
-| BCancel (cid : nat).
+| BCancel (cid : nat)
+| BElapse.                    (* time passes: the validity of whatever the block-wise layer has stored is over (the
+                                 deadline of the requests that gave up has passed); the periodic sweep has not run.
+                                 The property does not depend on time: nothing arrives, nobody has to return *)
 
 (* an observed event: the calls that returned, fall-through to the default handler, the block numbers the
    connection asked for, the number of 4.08 Request Entity Incomplete it wrote, and (where observed) per
@@ -127,6 +130,7 @@ Section Class.
              | BCancel cid => KCancel cid
              | BMsg m => KBurst (burst_resps p [m])
              | BBurst ms => KBurst (burst_resps p ms)
+             | BElapse => KBurst []
              end in
     mkOev k (b_rets e) (b_fell e).
 
